@@ -15,6 +15,8 @@ export BPPMC_VERIF_DIR=$mx/verif BPPMC_REPO_DIR=$mx/repo CARGO_NET_OFFLINE=true
 i=0; j=0
 for d in /verif/seeded/C*/ /verif/seeded/own-*/; do
   [ -f $d/patch.diff ] || continue
+  # SEEDS_RE='-(M|N)$': only seeds whose directory name matches
+  if [ -n "$SEEDS_RE" ] && ! basename $d | grep -Eq -- "$SEEDS_RE"; then continue; fi
   # SAMPLE=3: only every third seed (in directory order) is considered at all
   j=$((j+1)); if [ -n "$SAMPLE" ] && [ $((j % SAMPLE)) -ne 0 ]; then continue; fi
   i=$((i+1)); [ $((i % n)) -eq $k ] || continue
